@@ -253,8 +253,9 @@ def eval_inside(rec):
     two_d = cls in ("Circle", "Ellipse")
     axes = [env["a1"], env.get("a2", env["a1"]), env.get("a3", env["a1"])]
     pts, want, unclear, dev = [], [], 0, []
-    for u in GRID:
-        for v in GRID:
+    g3 = GRID if two_d else GRID[::2]
+    for u in g3:
+        for v in g3:
             for w in ([F(0)] if two_d else GRID[::2]):
                 p = [env["xc"] + u * axes[0], env["yc"] + v * axes[1], env["zc"] + w * axes[2]]
                 e2 = dict(env)
@@ -308,6 +309,8 @@ def _run_inside(ctx, classes):
         if r["cls"] in classes:
             seen.setdefault((r["cls"], str(r["axraw"]), str(r["env"])), r)
     recs = list(seen.values())
+    if ctx.tier == "quick":
+        recs = [r for i, r in enumerate(recs) if (i + ctx.seed) % 3 == 0]
     results = pmap(eval_inside, recs)
     for r, (mism, stats) in zip(recs, results):
         ctx.case((r["cls"], json.dumps(r["axraw"]), json.dumps(r["env"][-4:])),
